@@ -196,9 +196,15 @@ def run(ctx):
     # random larger collections
     cases = []
     for _ in range(1500 if thorough else 300):
-        style = rng.choice(['hp', 'hp', 'mixed-case'])
+        style = rng.choice(['hp', 'hp', 'mixed-case', 'nested'])
         if style == 'hp':
             pool = [f'HP:{i:07d}' for i in rng.sample(range(1, 200), 70)]
+        elif style == 'nested':
+            # prefixes that extend each other with a character sorting before ':' (the order of the CURIE strings and the order of
+            # (prefix, id) pairs differ), ids of unequal width, an id containing a delimiter
+            pool = [f'{rng.choice(["HP", "HP2", "HP-X", "HP.PS", "H", "NCIT", "NCIT-X", "OMIM", "OMIM.PS", "HP "])}:{rng.choice(["", "0", "00"])}{i}'
+                    for i in rng.sample(range(1, 120), 70)]
+            pool = list(dict.fromkeys(pool))
         else:       # prefixes that are not all upper-case, as in NCBITaxon / FBbt / Orphanet / obo-style lower-case ids
             pool = [f'{rng.choice(["NCBITaxon", "FBbt", "Orphanet", "hp", "Hp", "HP", "MONDO"])}:{i:07d}' for i in rng.sample(range(1, 200), 70)]
             pool = list(dict.fromkeys(pool))
